@@ -500,6 +500,84 @@ Proof.
   - intros Hd F. unfold SPath_z_integral. rewrite Hd. reflexivity.
 Qed.
 
+(* ---------------------------------------------------------------- indirect rays: the improper integral up to the turning depth *)
+(* At z_turn (n = beta, gamma = 0) the integrands tan, sec, n sec / c are unbounded, so they are not Riemann
+   integrable on [z0, z_turn]; the ray's travel / length / time on that leg is the improper integral, i.e. the
+   limit of the integrals on [z0, z'] for z' -> z_turn from below.  The generated closed forms are continuous
+   at z_turn, hence that limit is exactly the difference of endpoint values the code computes. *)
+Lemma left_limit_of_closed_form (F cf : R -> R) zt :
+  (forall y, y <= zt -> F y = cf y) -> continuous cf zt ->
+  filterlim F (at_left zt) (locally (F zt)).
+Proof.
+  intros Heq Hc. rewrite (Heq zt (Rle_refl zt)).
+  apply (filterlim_ext_loc cf F).
+  - unfold at_left, within. apply filter_forall. intros y Hy. symmetry. apply Heq. lra.
+  - intros P HP. unfold filtermap, at_left, within. generalize (Hc P HP). unfold filtermap.
+    apply filter_imp. intros y Hy _. exact Hy.
+Qed.
+
+Section TurningLimit.
+  Variables (s : Ice) (b zt z0 : R).
+  Hypothesis G : good s.
+  Hypothesis Hb : SPath_beta_tolerance < b.
+  Hypothesis Hturn : nzs s zt = b.
+  Hypothesis Hz0 : z0 < zt.
+
+  Let Hb0 : 0 < b. Proof. pose proof beta_tolerance_pos. lra. Qed.
+  Let Hl1 : 0 < lg1 (Ice_n0 s) (Ice_k s) (Ice_a s) b zt.
+  Proof. destruct G as [Ha Hk]. apply lg1_pos; [assumption.. | unfold nzs in Hturn; lra]. Qed.
+  Let Hl2 : 0 < lg2 (Ice_n0 s) (Ice_k s) (Ice_a s) b zt.
+  Proof. apply lg2_pos; unfold nzs in Hturn; lra. Qed.
+  Let below : forall y, y <= zt -> b <= nzs s y.
+  Proof. intros y Hy. pose proof (nzs_monotone s y zt G Hy). lra. Qed.
+  Let strictly_below : forall y, y < zt -> b < nzs s y.
+  Proof. intros y Hy. destruct G as [Ha Hk]. pose proof (nz_decreasing (Ice_n0 s) (Ice_k s) (Ice_a s) Ha Hk y zt Hy). unfold nzs in *. lra. Qed.
+
+  Lemma turning_leg_proper z' : z' < zt ->
+    is_RInt (tan_theta s b) z0 z' (SPath_distance_integral z' b s false - SPath_distance_integral z0 b s false) /\
+    is_RInt (sec_theta s b) z0 z' (SPath_pathlen_integral z' b s false - SPath_pathlen_integral z0 b s false) /\
+    is_RInt (slowness s b) z0 z' (SPath_tof_integral z' b s false - SPath_tof_integral z0 b s false).
+  Proof.
+    intros Hz'. set (top := Rmax z0 z').
+    assert (Htop : b < nzs s top) by (apply strictly_below; unfold top; apply Rmax_lub_lt; assumption).
+    split; [|split].
+    - apply (dist_shallow_RInt s b top G Hb Htop); [apply Rmax_l | apply Rmax_r].
+    - apply (plen_shallow_RInt s b top G Hb Htop); [apply Rmax_l | apply Rmax_r].
+    - apply (tof_shallow_RInt s b top G Hb Htop); [apply Rmax_l | apply Rmax_r].
+  Qed.
+
+  Lemma turning_leg_limit :
+    filterlim (fun z' => SPath_distance_integral z' b s false - SPath_distance_integral z0 b s false)
+              (at_left zt) (locally (SPath_distance_integral zt b s false - SPath_distance_integral z0 b s false)) /\
+    filterlim (fun z' => SPath_pathlen_integral z' b s false - SPath_pathlen_integral z0 b s false)
+              (at_left zt) (locally (SPath_pathlen_integral zt b s false - SPath_pathlen_integral z0 b s false)) /\
+    filterlim (fun z' => SPath_tof_integral z' b s false - SPath_tof_integral z0 b s false)
+              (at_left zt) (locally (SPath_tof_integral zt b s false - SPath_tof_integral z0 b s false)).
+  Proof.
+    pose proof G as [Ha Hk].
+    split; [|split].
+    - apply (left_limit_of_closed_form
+               (fun z' => SPath_distance_integral z' b s false - SPath_distance_integral z0 b s false)
+               (fun y => b / sqrt (al (Ice_n0 s) b) * L1 (Ice_n0 s) (Ice_k s) (Ice_a s) b y - SPath_distance_integral z0 b s false)).
+      + intros y Hy. rewrite (gen_dist_shallow s b y G Hb (below y Hy)). reflexivity.
+      + apply cR_minus; [apply dist_cf_continuous; assumption | apply cR_const].
+    - apply (left_limit_of_closed_form
+               (fun z' => SPath_pathlen_integral z' b s false - SPath_pathlen_integral z0 b s false)
+               (fun y => Ice_n0 s / sqrt (al (Ice_n0 s) b) * L1 (Ice_n0 s) (Ice_k s) (Ice_a s) b y
+                         + L2 (Ice_n0 s) (Ice_k s) (Ice_a s) b y - SPath_pathlen_integral z0 b s false)).
+      + intros y Hy. rewrite (gen_plen_shallow s b y G Hb (below y Hy)). reflexivity.
+      + apply cR_minus; [apply plen_cf_continuous; assumption | apply cR_const].
+    - apply (left_limit_of_closed_form
+               (fun z' => SPath_tof_integral z' b s false - SPath_tof_integral z0 b s false)
+               (fun y => (sqrt (ga (Ice_n0 s) (Ice_k s) (Ice_a s) b y) / Ice_a s
+                          + Ice_n0 s * L2 (Ice_n0 s) (Ice_k s) (Ice_a s) b y
+                          + Ice_n0 s ^ 2 / sqrt (al (Ice_n0 s) b) * L1 (Ice_n0 s) (Ice_k s) (Ice_a s) b y) / speed_of_light
+                         - SPath_tof_integral z0 b s false)).
+      + intros y Hy. rewrite (gen_tof_shallow s b y G Hb (below y Hy)). reflexivity.
+      + apply cR_minus; [apply tof_cf_continuous; assumption | apply cR_const].
+  Qed.
+End TurningLimit.
+
 (* ---------------------------------------------------------------- log_term_1 in cancellation-free form (clause 7) *)
 (* the code computes log_term_1 as beta^2 (k e^{az})^2 / (n0 n - beta^2 + sqrt(alpha gamma)); that IS
    the textbook n0 n - beta^2 - sqrt(alpha gamma) of the closed-form integrals *)
